@@ -11,6 +11,7 @@ oracle:         independent TSV reading: multiset of measurement lines per file 
                 outputs (each data point once per file containing the run, warm-up included, all identifying
                 columns); one header per file; earlier bytes are a prefix; a metadata record precedes the first
                 line of a run; password removed from the repository URL"""
+import collections
 import json
 import os
 import shutil
@@ -28,7 +29,12 @@ IMPORTS = ["Model.DataFile"]
 def gen_scenario(rng, d):
     nexp = rng.randint(1, 3)
     nb = rng.randint(1, 3)
-    files = ["default", "f1.data", "f2.data"]
+    # names that a normalising key would identify although they are different files: the same base name in another
+    # directory, names differing in case, relative names differing only in leading dots and slashes
+    rel = rng.random() < 0.25
+    files = ["default", "r.data", "../r.data", ".r.data"] if rel else ["default", "f1.data", "f2.data", "sub/f1.data", "F1.data"]
+    os.makedirs(os.path.join(d, "sub"), exist_ok=True)
+    os.makedirs(os.path.join(d, "work"), exist_ok=True)
     share_suite = rng.random() < 0.6
     suites = {}
     exps = {}
@@ -36,20 +42,21 @@ def gen_scenario(rng, d):
     for x in range(nexp):
         sname = "S" if share_suite else "S%d" % x
         if sname not in suites:
-            suites[sname] = {"gauge_adapter": "RebenchLog", "command": "%(benchmark)s %(invocation)s",
+            suites[sname] = {"gauge_adapter": "RebenchLog", "command": "%(suite)s/%(benchmark)s %(invocation)s",
                              "benchmarks": ["B%d" % b for b in range(nb)]}
         e = {"executions": [{"E": {"suites": [sname]}}]}
         f = rng.choice(files)
         if f != "default":
-            e["data_file"] = os.path.join(d, f)
-        exp_file["X%d" % x] = os.path.join(d, "default.data") if f == "default" else os.path.join(d, f)
+            e["data_file"] = f if rel else os.path.join(d, f)
+        exp_file["X%d" % x] = os.path.join(d, "default.data") if f == "default" else (f if rel else os.path.join(d, f))
         exps["X%d" % x] = e
     warmup = rng.choice([0, 0, 1, 3])
     raw = {"executors": {"E": {"path": "/x", "executable": "exe"}}, "benchmark_suites": suites, "experiments": exps,
            "runs": {"warmup": warmup}}
     ncrit = rng.randint(1, 4)
     niter = rng.randint(1, 5)
-    return dict(raw=raw, exp_file=exp_file, nb=nb, ncrit=ncrit, niter=niter, warmup=warmup, share=share_suite)
+    return dict(raw=raw, exp_file=exp_file, nb=nb, ncrit=ncrit, niter=niter, warmup=warmup, share=share_suite,
+                cwd=os.path.join(d, "work") if rel else None)
 
 
 def output_for(sc, bench, inv):
@@ -102,8 +109,11 @@ def run(chk):
     nsessions = 0
     for i in range(n):
         d = session.scratch_dir()
+        old_cwd = os.getcwd()
         try:
             sc = gen_scenario(rng, d)
+            if sc["cwd"]:
+                os.chdir(sc["cwd"])        # relative data file names are relative to the working directory
             files = sorted(set(sc["exp_file"].values()))
             prev = {f: b"" for f in files}
             expected = {f: [] for f in files}     # (bench, inv, iteration, criterion, value, unit)
@@ -118,11 +128,11 @@ def run(chk):
                 stop = rng.randint(0, 8) if sidx < nses - 1 else 10 ** 6
                 cnt = {"n": 0}
 
-                def script(bench, k, inv, cnt=cnt, stop=stop):
+                def script(key, k, inv, cnt=cnt, stop=stop):
                     cnt["n"] += 1
                     if cnt["n"] > stop:
                         raise KeyboardInterrupt()
-                    return 0, output_for(sc, bench, inv)[0]
+                    return 0, output_for(sc, key.split("/")[1], inv)[0]
                 ses = session.run_session(sc["raw"], script, os.path.join(d, "default.data"), argv=["-in", str(N)],
                                           exp_name=exp_name)
                 if ses.result == "exc:KeyboardInterrupt":
@@ -135,27 +145,9 @@ def run(chk):
                 # which files does a started run belong to in this session
                 selected = sorted(sc["exp_file"]) if exp_name is None else [exp_name]
                 suites_of = {x: sc["raw"]["experiments"][x]["executions"][0]["E"]["suites"][0] for x in selected}
-                # a run is identified by (suite, bench); starts are logged by bench only: with separate suites the
-                # same bench name exists once per suite, each started separately
-                per_suite_starts = {}
-                for su in sorted(set(suites_of.values())):
-                    per_suite_starts[su] = []
-                order = []
-                for (bench, inv) in ses.starts:
-                    order.append((bench, inv))
-                # expected additions per file
-                for f in files:
-                    suites_in_f = sorted({suites_of[x] for x in selected if sc["exp_file"][x] == f})
-                    for su in suites_in_f:
-                        for b in range(sc["nb"]):
-                            bench = "B%d" % b
-                            done = max([e[1] for e in expected[f] if e[0] == bench and e[6] == su] or [0])
-                            for inv in range(done + 1, N + 1):
-                                # was it started in this session (for this suite)? with a shared file state per run
-                                _, pts = output_for(sc, bench, inv)
-                                for it, ms in enumerate(pts, 1):
-                                    for (c, v, u) in ms:
-                                        recorded[f].append((bench, inv, it, c, v, u, su))
+                # a run is identified by (suite, bench), both visible on the command line: every start that delivered
+                # its output must be found, whole and once, in each file of a selected experiment the run belongs to
+                delivered = ses.starts[:-1] if cnt["n"] > stop else ses.starts
                 for f in files:
                     now = dh.read_bytes(f)
                     if not now.startswith(prev[f]):
@@ -165,6 +157,19 @@ def run(chk):
                     # files; the oracle below therefore compares per file what the file holds with what its runs need
                     headers, rows, recs = tsv_rows(now)
                     got = sorted((r[5], int(r[0]), int(r[1]), r[4], float(r[2]), r[3], r[7]) for _, r in rows)
+                    old_rows = tsv_rows(prev[f])[1] if now.startswith(prev[f]) else []
+                    got_new = collections.Counter((r[7], r[5], int(r[0]), int(r[1]), r[4]) for _, r in rows[len(old_rows):])
+                    exp_new = collections.Counter()
+                    for (key, inv) in delivered:
+                        su, bench = key.split("/")
+                        if any(suites_of[x] == su and sc["exp_file"][x] == f for x in selected):
+                            for it, ms in enumerate(output_for(sc, bench, inv)[1], 1):
+                                for (c, v, u) in ms:
+                                    exp_new[(su, bench, inv, it, c)] += 1
+                    if got_new != exp_new:
+                        chk.violation("C06 what a session appends to a file = the data points parsed for the runs of the selected "
+                                      "experiments recording into it, each once", dict(case, file=f),
+                                      sorted(exp_new.items())[:12], sorted(got_new.items())[:12])
                     if now and headers != 1:
                         chk.violation("C06 the column header appears once per file", dict(case, file=os.path.basename(f)), 1, headers)
                     for (ln, r) in rows:
@@ -231,6 +236,7 @@ def run(chk):
                                       exp_ms, r)
                         break
         finally:
+            os.chdir(old_cwd)
             shutil.rmtree(d, ignore_errors=True)
     chk.count("scenarios", n)
     chk.count("sessions", nsessions)
